@@ -307,6 +307,42 @@ def _neutralise(rec, before):
             rec["blocks"][b] = {"s": [], "t": {"k": "unreachable"}, "c": 1, "dead": 1}
 
 
+
+def _split_top(s):
+    out, depth, cur = [], 0, ""
+    for ch in s:
+        if ch in "<([":
+            depth += 1
+        elif ch in ">)]":
+            depth -= 1
+        if ch == "," and depth == 0:
+            out.append(cur.strip())
+            cur = ""
+        else:
+            cur += ch
+    if cur.strip():
+        out.append(cur.strip())
+    return out
+
+
+def _subst_generics(obj, table):
+    """Replace the callee's type parameters by the call site's generic arguments in every string of an inlined block."""
+    import re
+    if not table:
+        return obj
+    pat = re.compile(r"(?<![A-Za-z0-9_:])(%s)(?![A-Za-z0-9_])" % "|".join(re.escape(k) for k in sorted(table, key=len, reverse=True)))
+
+    def sub(x):
+        if isinstance(x, str):
+            return pat.sub(lambda m: table[m.group(1)], x) if any(k in x for k in table) else x
+        if isinstance(x, list):
+            return [sub(y) for y in x]
+        if isinstance(x, dict):
+            return {k: (sub(v) if k in ("ga", "ty", "t", "adt", "p", "raw", "c", "f", "rv", "s", "a", "use", "ops", "agg", "k", "d", "ind", "b", "rep", "cp", "mv") else v) for k, v in x.items()}
+        return x
+    return sub(obj)
+
+
 def inline_call(caller, call_block, callee):
     """Splice `callee` (a function record) into `caller` at the call terminating `call_block`."""
     blocks = caller["blocks"]
@@ -315,11 +351,18 @@ def inline_call(caller, call_block, callee):
     po = len(caller.get("promoted", []))
     tail = (t["d"]["l"] == 0 and not t["d"].get("p") and _is_result(caller["locals"][0]["t"]) and _is_result(callee["locals"][0]["t"]))
     qm = None if tail else (_question_mark_shape(caller, call_block) if _is_result(callee["locals"][0]["t"]) else None)
+    # a generic callee is instantiated with the call site's generic arguments
+    gtable = {}
+    if callee.get("gparams") and t["f"].get("ga"):
+        ga = _split_top(t["f"]["ga"])
+        if len(ga) == len(callee["gparams"]):
+            gtable = {n: a for n, a in zip(callee["gparams"], ga) if not n.startswith("'") and n != a}
     # locals: the callee's become anonymous temporaries of the caller
     for i, l in enumerate(callee["locals"]):
         # parameters become anonymous temporaries (assigned once from the argument, so provenance looks through them);
         # the callee's own named variables keep their names
-        caller["locals"].append({"t": l["t"], "n": l["n"]} if (i > callee["argc"] and l.get("n")) else {"t": l["t"]})
+        ty = _subst_generics(l["t"], gtable) if gtable else l["t"]
+        caller["locals"].append({"t": ty, "n": l["n"]} if (i > callee["argc"] and l.get("n")) else {"t": ty})
     if callee.get("promoted"):
         caller.setdefault("promoted", [])
         caller["promoted"].extend(copy.deepcopy(callee["promoted"]))
@@ -350,6 +393,8 @@ def inline_call(caller, call_block, callee):
     newblocks = []
     for (b, s) in order:
         bb = copy.deepcopy(callee["blocks"][b])
+        if gtable:
+            bb = _subst_generics(bb, gtable)
         _shift_block(bb, lo, 0, po)
         o = transfer(b, s) if split else "*"
 
@@ -629,7 +674,7 @@ def _thread_fn(rec):
                 else:
                     info = None
                     break
-            if not info or not any(k == "const" for _, k, _ in info):
+            if not info:
                 continue
             arms = {str(v): b for v, b in t["ts"]}
             for p, kind, val in info:
@@ -659,4 +704,255 @@ def thread_booleans(facts):
         if n:
             f.refresh()
             log.append("threaded %d edge(s) over a materialised boolean in %s" % (n, f.path))
+    return log
+
+
+# ---------------------------------------------------------------------------------------------------------------------------
+# P4: tuples that exist only to be matched on
+
+def _scalarise_fn(rec):
+    """`match (a, b) { (true, false) => .. }` builds a tuple and switches on its fields. Reads of `t.i` of a tuple local that is
+    assigned once from single-assignment operands and never used as a whole are replaced by the i-th operand."""
+    blocks = rec["blocks"]
+    whole_defs = {}
+    for bi, bb in enumerate(blocks):
+        for si, st in enumerate(bb["s"]):
+            if st["k"] == "=" and not st["p"].get("p"):
+                whole_defs.setdefault(st["p"]["l"], []).append((bi, si, st))
+        t = bb["t"]
+        if t["k"] == "call" and not t["d"].get("p"):
+            whole_defs.setdefault(t["d"]["l"], []).append((bi, None, t))
+    cands = {}
+    for l, ds in whole_defs.items():
+        if len(ds) != 1 or l <= rec["argc"]:
+            continue
+        st = ds[0][2]
+        agg = st.get("rv", {}).get("agg") if st.get("k") == "=" else None
+        if not agg or agg.get("k") != "tuple":
+            continue
+        ops = st["rv"]["ops"]
+        ok = True
+        for o in ops:
+            if "k" in o:
+                continue
+            sl = _operand_local(o)
+            if sl is None or (sl > rec["argc"] and len(whole_defs.get(sl, [])) != 1) or (sl <= rec["argc"] and whole_defs.get(sl)):
+                ok = False
+        if ok and ops:
+            cands[l] = ops
+    if not cands:
+        return 0
+    # every use must be an operand read of a field projection
+    bad = set()
+
+    def visit_place(pl, is_operand, is_def=False):
+        l = pl["l"]
+        if l in cands and not is_def:
+            p = pl.get("p") or []
+            if not is_operand or not p or not (isinstance(p[0], dict) and "f" in p[0]) or int(p[0]["f"]) >= len(cands[l]):
+                bad.add(l)
+        for e in pl.get("p") or []:
+            if isinstance(e, dict) and e.get("ix") in cands:
+                bad.add(e["ix"])
+
+    def visit_op(o):
+        if isinstance(o, dict):
+            for k in ("cp", "mv"):
+                if k in o:
+                    visit_place(o[k], True)
+    for bb in blocks:
+        for st in bb["s"]:
+            if "p" in st:
+                visit_place(st["p"], False, is_def=not st["p"].get("p"))
+                if st["p"].get("p") and st["p"]["l"] in cands:
+                    bad.add(st["p"]["l"])
+            rv = st.get("rv") or {}
+            for k in ("use", "a", "b", "rep"):
+                if k in rv:
+                    visit_op(rv[k])
+            for k in ("ref", "raw", "discr"):
+                if k in rv and isinstance(rv[k], dict):
+                    visit_place(rv[k], False)
+            for o in rv.get("ops", []):
+                visit_op(o)
+        t = bb["t"]
+        if t["k"] == "call":
+            for a in t["a"]:
+                visit_op(a)
+            if "ind" in t["f"]:
+                visit_op(t["f"]["ind"])
+            visit_place(t["d"], False, is_def=not t["d"].get("p"))
+        elif t["k"] == "switch":
+            visit_op(t["d"])
+        elif t["k"] == "drop" and "p" in t:
+            visit_place(t["p"], False)
+        elif t["k"] == "assert":
+            visit_op(t["c"])
+    n = 0
+
+    def rewrite(o):
+        nonlocal n
+        if not isinstance(o, dict):
+            return o
+        for k in ("cp", "mv"):
+            if k in o and o[k]["l"] in cands and o[k]["l"] not in bad:
+                p = o[k]["p"]
+                src = cands[o[k]["l"]][int(p[0]["f"])]
+                rest = p[1:]
+                n += 1
+                if "k" in src:
+                    return copy.deepcopy(src) if not rest else o
+                sl = _operand_local(src)
+                new = {"l": sl}
+                if rest:
+                    new["p"] = rest
+                return {"cp": new}
+        return o
+    for bb in blocks:
+        for st in bb["s"]:
+            rv = st.get("rv") or {}
+            for k in ("use", "a", "b", "rep"):
+                if k in rv:
+                    rv[k] = rewrite(rv[k])
+            if "ops" in rv:
+                rv["ops"] = [rewrite(o) for o in rv["ops"]]
+        t = bb["t"]
+        if t["k"] == "call":
+            t["a"] = [rewrite(a) for a in t["a"]]
+        elif t["k"] == "switch":
+            t["d"] = rewrite(t["d"])
+        elif t["k"] == "assert":
+            t["c"] = rewrite(t["c"])
+    return n
+
+
+def scalarise_tuples(facts):
+    log = []
+    for f in facts.fn_list:
+        if f.kind == "const":
+            continue
+        n = _scalarise_fn(f.rec)
+        if n:
+            f.refresh()
+            log.append("replaced %d read(s) of a matched-on tuple by its components in %s" % (n, f.path))
+    return log
+
+
+# ---------------------------------------------------------------------------------------------------------------------------
+# P5: hand-written minimum / maximum
+
+def _same_operand(a, b):
+    if not isinstance(a, dict) or not isinstance(b, dict):
+        return False
+    ka, kb = a.get("k"), b.get("k")
+    if ka is not None or kb is not None:
+        return ka is not None and kb is not None and ka.get("v") == kb.get("v") and ka.get("ty") == kb.get("ty") and "v" in ka
+    pa = a.get("cp") or a.get("mv")
+    pb = b.get("cp") or b.get("mv")
+    return pa is not None and pb is not None and pa == pb
+
+
+def _minmax_fn(rec):
+    """`if x > y { y } else { x }` and `if x > y { x = y }` become `min(x, y)` (likewise max): the comparison's strictness and
+    which arm is written first carry no meaning, the selected value does."""
+    blocks = rec["blocks"]
+    n = 0
+    defs = {}
+    for bb in blocks:
+        for st in bb["s"]:
+            if st["k"] == "=" and not st["p"].get("p"):
+                defs.setdefault(st["p"]["l"], []).append(st)
+        if bb["t"]["k"] == "call" and not bb["t"]["d"].get("p"):
+            defs.setdefault(bb["t"]["d"]["l"], []).append(bb["t"])
+
+    def root(o):
+        """Follow single-definition temporaries that merely copy another operand."""
+        for _ in range(5):
+            l = _operand_local(o)
+            if l is None or l <= rec["argc"] or rec["locals"][l].get("n"):
+                return o
+            ds = defs.get(l, [])
+            if len(ds) != 1 or ds[0].get("k") != "=" or "use" not in ds[0]["rv"]:
+                return o
+            o = ds[0]["rv"]["use"]
+        return o
+
+    def same(a, b):
+        return _same_operand(root(a), root(b))
+    for bi, B in enumerate(blocks):
+        t = B["t"]
+        if t["k"] != "switch" or t.get("dt") != "bool" or B.get("c") or not B["s"]:
+            continue
+        c = _operand_local(t["d"])
+        st = B["s"][-1]
+        if c is None or st["k"] != "=" or st["p"].get("p") or st["p"]["l"] != c or st["rv"].get("bin") not in ("Gt", "Ge", "Lt", "Le"):
+            continue
+        op, x, y = st["rv"]["bin"], st["rv"]["a"], st["rv"]["b"]
+        arms = {str(v): b for v, b in t["ts"]}
+        f_blk = arms.get("0", t["o"])
+        t_blk = t["o"] if "0" in arms else arms.get("1")
+        if t_blk is None or f_blk is None or t_blk == f_blk:
+            continue
+
+        def arm(b):
+            """(dest place, source operand, join) when block b is `d = use(op); goto j`."""
+            bb = blocks[b]
+            if bb.get("c") or bb["t"]["k"] != "goto" or len(bb["s"]) != 1:
+                return None
+            s0 = bb["s"][0]
+            if s0["k"] != "=" or "use" not in s0["rv"]:
+                return None
+            return s0["p"], s0["rv"]["use"], bb["t"]["t"]
+        at, af = arm(t_blk), arm(f_blk)
+        kind = None
+        if at and af and at[0] == af[0] and at[2] == af[2]:
+            dest, join = at[0], at[2]
+            vt, vf = at[1], af[1]
+        elif at and at[2] == f_blk and not at[0].get("p"):
+            # triangle: true arm overwrites d, false arm keeps it; d must be one of the compared operands
+            dest, join = at[0], f_blk
+            vt = at[1]
+            vf = {"cp": dict(dest)}
+        elif af and af[2] == t_blk and not af[0].get("p"):
+            dest, join = af[0], t_blk
+            vf = af[1]
+            vt = {"cp": dict(dest)}
+        else:
+            continue
+        # which of (x, y) does each arm select?
+        def which(v):
+            if same(v, x):
+                return "x"
+            if same(v, y):
+                return "y"
+            return None
+        wt, wf = which(vt), which(vf)
+        if not wt or not wf or wt == wf:
+            continue
+        greater_true = op in ("Gt", "Ge")      # true arm taken when x is the larger one
+        if greater_true:
+            kind = "min" if (wt == "y" and wf == "x") else "max"
+        else:
+            kind = "min" if (wt == "x" and wf == "y") else "max"
+        ty = rec["locals"][dest["l"]]["t"] if not dest.get("p") else None
+        if ty is None or ty not in ("u8", "u16", "u32", "u64", "u128", "usize", "i8", "i16", "i32", "i64", "i128", "isize"):
+            continue
+        B["s"].pop()
+        B["t"] = {"k": "call", "f": {"p": "std::cmp::Ord::%s" % kind, "ga": ty}, "a": [copy.deepcopy(x), copy.deepcopy(y)], "d": copy.deepcopy(dest), "t": join, "u": -1,
+                  "l": t.get("l"), "x": 0}
+        n += 1
+    return n
+
+
+def recognise_minmax(facts):
+    log = []
+    for f in facts.fn_list:
+        if f.kind == "const" or f.expn:
+            continue
+        before = _reachable(f.rec)
+        n = _minmax_fn(f.rec)
+        if n:
+            _neutralise(f.rec, before)
+            f.refresh()
+            log.append("read %d hand-written minimum / maximum selection(s) as min / max in %s" % (n, f.path))
     return log
